@@ -139,10 +139,14 @@ public:
         FD->getNameForDiagnostic(OS, PP, true);
         OS << "(";
         bool first = true;
-        for (auto* P : FD->parameters()) {
-            if (!first) OS << ", ";
-            first = false;
-            OS << tyStr(P->getType());
+        // parameter types as in the function type (top-level cv-qualifiers dropped), so that a
+        // declaration and its definition map to the same id
+        if (auto* FPT = FD->getType().getCanonicalType()->getAs<FunctionProtoType>()) {
+            for (QualType T : FPT->getParamTypes()) {
+                if (!first) OS << ", ";
+                first = false;
+                OS << tyStr(T);
+            }
         }
         OS << ")";
         if (auto* M = dyn_cast<CXXMethodDecl>(FD)) {
